@@ -481,6 +481,13 @@ def _same(c, model, impl, spec_ok):
         if len(it) == 3 and it[1] != '_' and dec_list(it[0]) != dec_list(it[1]):
             return False
         return canon_partition(fm) == canon_partition(fi) and sizes(fm) == sizes(fi)
+    if c.canon == 'agg' and model.startswith('ok') and impl.startswith('ok'):
+        mt, it = model.split(' '), impl.split(' ')
+        if mt[:3] != it[:3]:
+            return False
+        ma, mb = dec_mat(mt[3]), dec_mat(it[3])
+        return len(ma) == len(mb) and all(len(x) == len(y) and all(abs(u - v) <= TOL_F * (1 + abs(u))
+                                                                    for u, v in zip(x, y)) for x, y in zip(ma, mb))
     if c.canon == 'mats' and model.startswith('ok') and impl.startswith('ok'):
         mt, it = model.split(' '), impl.split(' ')
         if len(mt) != len(it):
@@ -630,6 +637,48 @@ def estimator_cases(ctx, name, b, reps=1, kcenters=True):
     return out
 
 
+def aggregate_graph_cases(ctx, b, variants=2):
+    """postprocess.aggregate_graph on random integer labels (negative = ignored), all argument combinations."""
+    from sknetwork.clustering.postprocess import aggregate_graph
+    rng = ctx.rng
+    nr, nc = b.shape
+    g = enc_csr(b)
+    out = []
+    for _ in range(variants):
+        def lab(n):
+            k = rng.randint(1, 4)
+            return [rng.choice([-1] + list(range(k)) * 2) for _ in range(n)]
+        mode = rng.choice(['labels', 'row', 'row+col', 'labels+col', 'none'] if nr == nc else
+                          ['row+col', 'row+col', 'labels+col', 'labels', 'none'])
+        lr = lab(nr)
+        lc = lab(nc)
+        kw = {}
+        if mode in ('labels', 'labels+col'):
+            kw['labels'] = np.array(lr)
+        if mode in ('row', 'row+col'):
+            kw['labels_row'] = np.array(lr)
+            if rng.random() < 0.3:
+                kw['labels'] = np.array(lab(nr))     # ignored: labels_row wins
+        if mode in ('row+col', 'labels+col'):
+            kw['labels_col'] = np.array(lc)
+        toks = [opt(None if kw.get(x) is None else kw[x]) for x in ('labels', 'labels_row', 'labels_col')]
+        desc = {'kind': 'aggregate_graph', 'graph': gdesc(b), 'kw': {k: [int(x) for x in v] for k, v in kw.items()}}
+
+        def f():
+            m = aggregate_graph(b, **kw)
+            return 'ok %d %d %s' % (m.shape[0], m.shape[1], enc_mat(m.toarray()))
+        impl = _call0(f, errors=(ValueError, IndexError, TypeError))
+        spec = None
+        if impl.startswith('ok '):
+            eff_c = lc if 'labels_col' in kw else lr
+            t = impl.split(' ')
+            spec = 'c05.spec_aggregate_graph %s %s %s %s %s %s %s' % (g, enc_list(lr), enc_list(eff_c), t[1], t[2], t[3], TOL)
+        out.append(Case(('aggregate_graph', g, tuple(toks)), {'entry': 'aggregate_graph', 'mode': mode},
+                        'c05.aggregate_graph %s %s' % (g, ' '.join(toks)), impl, spec,
+                        impl.startswith('ok') and max(lr) >= 1, desc, canon='agg'))
+    return out
+
+
 def refusal_cases(ctx):
     """Inputs the estimators refuse: no stored entry (check_format), unknown modularity (_pre_processing)."""
     from sknetwork.clustering import Louvain, Leiden, PropagationClustering, KCenters
@@ -677,6 +726,8 @@ def cases_of_desc(ctx, d):
         return label_vector_cases(ctx, d['labels'])
     if d.get('kind') == 'refusal':
         return refusal_cases(ctx)
+    if d.get('kind') == 'aggregate_graph':
+        return aggregate_graph_replay(ctx, d)
     b = gfrom(d['graph'])
     if d['est'] in ('Louvain', 'Leiden'):
         return louvain_cases(ctx, d['est'], b, d['params'], d.get('force_bipartite', False))
@@ -685,6 +736,27 @@ def cases_of_desc(ctx, d):
     if d['est'] == 'KCenters':
         return kcenters_cases(ctx, b, d['params'], d.get('force_bipartite', False), d.get('np_seed', 0))
     raise ToolFailure('unknown replay case %r' % (d,))
+
+
+def aggregate_graph_replay(ctx, d):
+    from sknetwork.clustering.postprocess import aggregate_graph
+    b = gfrom(d['graph'])
+    kw = {k: np.array(v) for k, v in d['kw'].items()}
+    g = enc_csr(b)
+    toks = [opt(None if kw.get(x) is None else kw[x]) for x in ('labels', 'labels_row', 'labels_col')]
+
+    def f():
+        m = aggregate_graph(b, **kw)
+        return 'ok %d %d %s' % (m.shape[0], m.shape[1], enc_mat(m.toarray()))
+    impl = _call0(f, errors=(ValueError, IndexError, TypeError))
+    spec = None
+    if impl.startswith('ok '):
+        lr = kw.get('labels_row', kw.get('labels'))
+        lc = kw.get('labels_col', lr)
+        t = impl.split(' ')
+        spec = 'c05.spec_aggregate_graph %s %s %s %s %s %s %s' % (g, enc_list(lr), enc_list(lc), t[1], t[2], t[3], TOL)
+    return [Case(('aggregate_graph', g, tuple(toks)), {'entry': 'aggregate_graph'},
+                 'c05.aggregate_graph %s %s' % (g, ' '.join(toks)), impl, spec, True, d, canon='agg')]
 
 
 def build_cases(ctx):
@@ -697,6 +769,7 @@ def build_cases(ctx):
     kc_idx = set(rng.sample(range(len(gs)), min(len(gs), kc_budget)))
     for i, (name, b) in enumerate(gs):
         cases += estimator_cases(ctx, name, b, reps=1 if ctx.quick else 2, kcenters=i in kc_idx)
+        cases += aggregate_graph_cases(ctx, b, variants=2 if ctx.quick else 4)
     return cases
 
 
